@@ -184,7 +184,7 @@ func genBody(r *rand.Rand) ([]byte, string) {
 		l := 1 + r.Intn(60)
 		b := make([]byte, l)
 		for i := range b {
-			b[i] = "ab \n\n:-"[r.Intn(8)]
+			b[i] = "ab \n\n:-"[r.Intn(7)]
 		}
 		return b, "random-structure"
 	case 14:
